@@ -10,7 +10,7 @@ PYTHONPATH=$W/src timeout 300 /venv/bin/python $SRC/demo_$V.py > /tmp/ingest.$$.
 git apply $SRC/patch_$V.diff || { echo "$ID_$V: PATCH DOES NOT APPLY"; exit 3; }
 if git diff --name-only | grep -qv '^src/clikit/'; then echo "${ID}_$V: touches files outside src/clikit"; exit 3; fi
 PYTHONPATH=$W/src timeout 300 /venv/bin/python $SRC/demo_$V.py > /tmp/ingest.$$.b 2>&1; B=$?
-T=$(/venv/bin/python -m pytest -q -p no:cacheprovider 2>&1 | tail -1)
+T=$(PYTHONPATH=$W/src /venv/bin/python -m pytest -q -p no:cacheprovider 2>&1 | tail -1)
 echo "${ID}_$V: demo pristine=$A patched=$B suite: $T"
 tail -3 /tmp/ingest.$$.b | cut -c1-300
 rm -f /tmp/ingest.$$.a /tmp/ingest.$$.b
